@@ -28,7 +28,7 @@ CHECKS["C02"] = dict(
   note=TXN_NOTE)
 CHECKS["C03"] = dict(
   engine="parksched", category="fault_enumeration", design="5/C03",
-  technique="fault-script enumeration at the store seam of the implementation (all placements of <= F deviations at every RPC of Commit) combined with bounded-preemption interleaving with a reader whose resolver sees the locks expired",
+  technique="fault-script enumeration at the store seam of the implementation (all placements of <= F deviations at every RPC of Commit) combined with bounded-preemption interleaving with a reader whose resolver sees the locks expired; plus a definitely failing commit (scripted write-conflict answer) raced by a reader explored as an actor",
   text="All single (quick) and double (thorough) faults from {drop request, drop response, NotLeader, EpochNotMatch, ServerIsBusy, StaleCommand, real region split before delivery, clock jump past the TTL with a concurrent reader/resolver} at every RPC index of the committing client; Commit's answer (nil / definite error / undetermined) is compared with the final MVCC state after forced resolution; 'undetermined' is accepted only when a commit-point message was lost.",
   note=TXN_NOTE)
 CHECKS["C17"] = dict(
@@ -44,12 +44,12 @@ CHECKS["C04"] = dict(
   note=TXN_NOTE + " The property text is cut at 2048 characters; its last clause is read as the pessimistic-check flag.")
 CHECKS["C06"] = dict(
   engine="parksched", category="model_checking", design="5/C06",
-  technique="exhaustive enumeration of transaction programs (lock-call options, aggressive-locking stages, commit/rollback) x contending transaction, all seam interleavings under a preemption bound on the implementation; 1PC / async attempts that fall back to 2PC included; invariant: no lock of an ended transaction once drained",
+  technique="exhaustive enumeration of transaction programs (lock-call options, aggressive-locking stages, commit/rollback) x contending transaction, all seam interleavings under a preemption bound on the implementation; 1PC / async attempts that fall back to 2PC included, plus one region error or real split at every clean-up RPC; invariant: no lock of an ended transaction once drained",
   text="All programs of one transaction up to the depth bound from the per-mode alphabet, each against four contenders (none, optimistic writer, pessimistic locker, deadlock shape), every interleaving with <= P preemptions, no message lost; after everything drained and without moving the clock past any TTL the store is scanned for locks of ended transactions.",
   note=TXN_NOTE)
 CHECKS["C09"] = dict(
   engine="seqx", category="model_checking", design="5/C09",
-  technique="explicit-state BFS over sequences of topology changes, cache manipulations, stale PD answers and every lookup API on the real RegionCache over the mock cluster (canonical state = topology + white-box cache dump), cache states incl. cold / warm / invalidated / TTL-expired / scheduled-for-reload",
+  technique="explicit-state BFS over sequences of topology changes, cache manipulations, stale PD answers and every lookup API on the real RegionCache over the mock cluster (canonical state = topology + white-box cache dump), cache states incl. cold / warm / invalidated / TTL-expired / scheduled-for-reload, left- and right-derive splits, rewritten EpochNotMatch answers; invariant on the mock cluster's own region versions",
   text="Breadth-first search to the depth bound over an alphabet of 87-207 operations from two root topologies, plain and mem-comparable PD codecs; after every operation all lookup results are checked for containment / gap-free coverage / grouping, the cache index for regression, and a Get for every key must converge to the true leader.",
   note="Trusted: mock cluster as ground truth (epochs patched to TiKV rules after split/merge), white-box accessors, background goroutines replaced by explicit explorer operations, back-off via the repo's skip-sleep failpoint.")
 CHECKS["C10"] = dict(
@@ -65,7 +65,7 @@ CHECKS["C20"] = dict(
 
 CHECKS["C07"] = dict(
   engine="seqx", category="model_checking", design="5/C07",
-  technique="explicit-state BFS over operation sequences of the real KVUnionStore / BufferBatchGetter on both buffers against an ordered-map model with undo stack (dedup by canonical model state)",
+  technique="explicit-state BFS over operation sequences of the real KVUnionStore / BufferBatchGetter on both buffers against an ordered-map model with undo stack (dedup by canonical model state), key sets incl. duplicates in a batch and prefixes longer than the in-node prefix",
   text="All sequences to the depth bound of set/delete/get/batch-get/iter/iter-reverse/staging/release/cleanup/checkpoint/revert over an adversarial key pool, for every subset of the snapshot key pool and both buffer implementations; after each operation the whole observation set (all gets, batch-gets, iterators over all bound pairs) is compared with the model.",
   note="Trusted: the map-backed snapshot, the reference model (rt/models/omap); KVTxn's read/write methods are one-line delegations to the driven objects.")
 CHECKS["C08"] = dict(
@@ -97,7 +97,7 @@ CHECKS["C13"] = dict(
   note="Trusted: scripted PD (issue and deliver are separate transitions), atomic shim (rt/c13atomic) and ticker-by-scenario clock shim (rt/c13x/ctime) injected by import rewriting of oracle/oracles/pd.go; sync.Map / mutex / singleflight internals are not points.")
 CHECKS["C14"] = dict(
   engine="parksched", category="model_checking", design="5/C14",
-  technique="crash-point enumeration of two victim transactions followed by the real GC lock resolution as an explored actor (scan limit 1..3, region split before any of its RPCs), under the controlled scheduler; plus exhaustive grids on the real range task / delete-range task (static layouts and a region split injected between lookup and delivery of each request) / safe-point check (learned before and during the read)",
+  technique="crash-point enumeration of two victim transactions followed by the real GC lock resolution as an explored actor (scan limit 1..3, region split before any of its RPCs; one preemption inside the pass for a dead async-commit transaction), under the controlled scheduler; plus exhaustive grids on the real range task / delete-range task (static layouts and a region split injected between lookup and delivery of each request) / safe-point check (learned before and during the read)",
   text="Lock populations are produced by crashing two victims at every combination of seam events within the fault budget (committed primary with unresolved secondaries, rolled back, pending, async-commit, 1PC, pessimistic locks), then tikv.ResolveLocksForRange runs with every scan limit and an optional split; after a successful pass no lock <= safe point remains, committed versions are unchanged and every victim is all-or-nothing and ack-consistent. RunOnRange is run over every layout x range x concurrency x regions-per-task x failing sub-range, DeleteRangeTask over the same grid against a map, snapshot reads at sp-1 / sp / sp+1.",
   note=TXN_NOTE + " GC starts only after every transaction below the safe point ended or crashed; lock-only keys are avoided on unistore (it keeps no commit record for them).")
 
@@ -109,7 +109,7 @@ CHECKS["C05"] = dict(
 
 CHECKS["C16"] = dict(
   engine="parksched", category="model_checking", design="5/C16",
-  technique="exhaustive enumeration of pipelined-transaction programs (set/delete/get/batch-get/flush/flush-wait, commit or rollback) x layouts with flushed keys on region borders, flush completion interleaved with the following calls under a preemption bound (thorough: a lost flush RPC), plus a resolver that expires and rolls back the flushed locks at every decision point, on the real pipelined KVTxn over unistore",
+  technique="exhaustive enumeration of pipelined-transaction programs (set/delete/get/batch-get/flush/flush-wait, commit or rollback) x layouts with flushed keys on region borders, flush completion interleaved with the following calls under a preemption bound (thorough: a lost flush RPC), plus a resolver that expires and rolls back the flushed locks at every decision point and a region split right before any read of the flushed buffer, on the real pipelined KVTxn over unistore",
   text="Every program to the depth bound ending in commit or rollback on three layouts; every call is a scheduling point so that a running flush completes before or after the next calls; reads must return the latest program-order write at any tier, each mutation is part of exactly one flush generation, generations increase with at most one in flight, and after commit / rollback and drain every flushed key has the primary's outcome and no lock of the transaction is left.",
   note=TXN_NOTE + " unistore is the only backend (the in-repo mock has no Flush / BufferBatchGet); flush and resolve concurrency 1. The memory-level PipelinedMemDB harness of DESIGN (a) is subsumed by driving the real transaction.")
 
